@@ -75,9 +75,18 @@ def check_case(res, case):
     n, init, tt, fin = W.stim_for(nv)
     delays = wsim.delay_array(len(c.lines), case['plan'])
     ws = W.make_sim(c, delays, n, caps=case['caps'], reuse=w_reuse, strip=w_strip)
+    ls = LogicSim(c, sims=n, m=8, c_reuse=l_reuse, strip_forks=l_strip)
+    if common.h64((case['nl'], case['opts'], case['caps'])) & 1:
+        # both simulator objects first process another stimulus (lanes rotated): results must not depend on that history
+        perm = np.roll(np.arange(n), 11)
+        W.assign(ws, ipos + spos, [x[perm] for x in init], [x[perm] for x in tt], [x[perm] for x in fin])
+        ws.s_to_c(); ws.c_prop(); ws.c_to_s()
+        for k, pos in enumerate(ipos + spos):
+            lsim.assign_codes(ls, pos, wsim.code8(init[k][perm], fin[k][perm]))
+        ls.s_to_c(); ls.c_prop(); ls.c_to_s()
+        res.count('cases_with_history')
     W.assign(ws, ipos + spos, init, tt, fin)
     ws.s_to_c(); ws.c_prop(); ws.c_to_s()
-    ls = LogicSim(c, sims=n, m=8, c_reuse=l_reuse, strip_forks=l_strip)
     for k, pos in enumerate(ipos + spos):
         lsim.assign_codes(ls, pos, wsim.code8(init[k], fin[k]))
     ls.s_to_c(); ls.c_prop(); ls.c_to_s()
@@ -119,7 +128,7 @@ def check_case(res, case):
 
 
 def finish(agg, tier):
-    need = ['const_lanes', 'active_lanes', 'full_line_checks']
+    need = ['const_lanes', 'active_lanes', 'full_line_checks', 'cases_with_history']
     missing = [k for k in need if not agg.counters.get(k)]
     if missing: raise common.HarnessError(f'vacuity guard: {missing} zero')
     return {}
